@@ -233,7 +233,8 @@ fn drop(instructions: &mut VecCursor<SymbolicByteCode>, lines: &mut VecCursor<u1
   lines.copy_cursors();
   let mut drop_count: u8 = 1;
 
-  while instructions.peek_next() == Some(SymbolicByteCode::Drop) {
+  // a longer run continues in a drop of its own
+  while drop_count < u8::MAX && instructions.peek_next() == Some(SymbolicByteCode::Drop) {
     instructions.inc_reader(1);
     drop_count += 1;
   }
